@@ -178,6 +178,9 @@ def handle_result(run, r, c):
             'ctx_rules': [i for i, x in enumerate(c.g.rules) if x['f'] == 'ctxhash'] if c else []}
     if mach and any('no body' in f['desc'] for f in mach):
         run.inconclusive.append('%s: %s' % (r['id'], desc)); return
+    if c is not None and c.mode == 'writeset' and any('WRITESET' in f['desc'] for f in r['failed']):
+        ws = [f['desc'] for f in r['failed'] if 'WRITESET' in f['desc']]
+        run.violation('a parse call writes shared state on input %s (unit %s): %s' % (vlib.hexs(inp), r['meta'].get('unit'), '; '.join(ws)[:300]), robj); return
     if c is not None and c.mode == 'safety' and unwind and not props and not other:
         # termination: does the real code hang on this input?
         if rep and rep['rc'] == -9: run.violation('parse does not terminate on input %s (unit %s): %s' % (vlib.hexs(inp), r['meta'].get('unit'), desc), robj)
